@@ -1266,17 +1266,24 @@ BOUNDED = {
     "dinucleotide": {
         "gen": gen_dinucleotide, "contract": contract_dinucleotide,
         "functions": ["substitution_model.TimeReversibleDinucleotide", "ns_substitution_model.NonReversibleDinucleotide",
-                      "motif_prob_model.SimpleMotifProbModel / ConditionalMotifProbModel / MonomerProbModel"],
+                      "motif_prob_model.SimpleMotifProbModel / ConditionalMotifProbModel / MonomerProbModel / "
+                      "PosnSpecificMonomerProbModel", "_SubstitutionModel(motifs=...)"],
         "bound": "3 trees (2-4 tips, one zero and one 1e-3 length) x {tuple, conditional, monomer, non-reversible} "
                  "dinucleotide models with kappa and a CpG term x 2-3 motif-probability vectors x 2-3 parameter settings; "
-                 "2 tips: all 16+7 words squared; 3-4 tips: columns over 12 words incl. AN RC -A C- -- YG NN",
+                 "2 tips: all 16+7 words squared; 3-4 tips: columns over 12 words incl. AN RC -A C- -- YG NN; the "
+                 "mprob_model option: monomers (position-specific; probs given per position / one vector / a word "
+                 "distribution) on the full alphabet and, with monomer, on a motifs= sub-alphabet of 14 words in quick; "
+                 "thorough: every accepted value (tuple word conditional None monomer monomers) on the sub-alphabet, "
+                 "reversible and non-reversible",
         "rule": "as nucleotide",
     },
     "codon": {
         "gen": gen_codon, "contract": contract_codon, "shards": 16,
         "functions": ["substitution_model.TimeReversibleCodon", "ns_substitution_model.NonReversibleCodon",
                       "models.MG94HKY MG94GTR GY94 Y98 CNFGTR CNFHKY GNC H04G H04GK H04GGK", "motif_prob_model.*"],
-        "bound": "quick: MG94HKY, CNFGTR on a 3-tip tree; thorough: 10 codon models (H04G/H04GK/H04GGK: either reading of the "
+        "bound": "quick: MG94HKY, CNFGTR and TimeReversibleCodon(mprob_model='monomers') on a 3-tip tree; thorough: "
+                 "TimeReversibleCodon / NonReversibleCodon with every accepted mprob_model (tuple word conditional None "
+                 "monomer monomers; monomers fed per position / one vector / word distribution), and 10 codon models (H04G/H04GK/H04GGK: either reading of the "
                  "CpG term for CCG<->CGG accepted) + MG94HKY, GY94 under genetic code 2 "
                  "x 3 trees (2-4 tips, one zero length) x 3 motif-probability vectors x omega {0.25,2} with optional "
                  "per-edge omega and update, plus two-bin omega site classes; columns over the sense codons + ACN TAN "
@@ -1295,7 +1302,10 @@ BOUNDED = {
         "functions": ["LikelihoodFunction.get_full_length_likelihoods"],
         "bound": "all 20 tree shapes on 2-5 tips x 2 (4 thorough) length assignments from {0,1e-3,0.1,0.4,1.5} x 8 "
                  "nucleotide models (every 4th with 2 per-bin parameters, every 4th with 4 gamma bins): all 4^k columns; "
-                 "dinucleotide (2-3 tips), protein (2-3 tips), codon (2 tips): all |states|^k columns",
+                 "dinucleotide (2-3 tips), protein (2-3 tips), codon (2 tips): all |states|^k columns; the mprob_model "
+                 "option on alphabets that are not all k-mers: quick TimeReversibleCodon monomers (61^2 columns), "
+                 "dinucleotide motifs= subset (14 words) with monomers / monomer / conditional / non-reversible monomers; "
+                 "thorough every accepted mprob_model x {codon, non-reversible codon, subset, non-reversible subset}",
         "rule": "a case = (model, tree, parameters); always non-trivial; distinct by hash of the case",
     },
 }
